@@ -30,7 +30,7 @@ theorem stages (P : BState → Nat → Prop) (hP : FrameClosed P) (rules : List 
     (hmap : ∀ r ∈ rules, C03.MapOK P r)
     (maxNesting : Int) (s s' : BState) (startLine endLine : Nat) (hlen : s.lines.length = s.lineMax + 1)
     (hend : endLine ≤ s.lineMax) (hPs : P s endLine) (h : blockTokenize rules maxNesting s startLine endLine = .ok s') :
-    ∃ new, s'.tokens = s.tokens ++ new ∧ C03.Staged startLine endLine new :=
+    ∃ new, s'.tokens = s.tokens ++ new ∧ C03.Staged startLine s.lineMax new :=
   C03.loop_maps_staged P hP rules hok hmap maxNesting endLine _ startLine false s s' hlen hend hPs h
 
 /-- **C07.pins_cover** (T1 obligation over tables regenerated from the rule sources) — every block rule
